@@ -114,6 +114,7 @@ class Features:
     enum_first_zero_bias: bool = True
     enum_first_zero: bool = False  # first member is always 0 (keeps recorded finding D4b out of a check)
     flavour_pairs: bool = True  # sometimes two aliases of one width but different kinds, used the same way (add_flavour_pair)
+    message_grids: bool = True  # sometimes a message reached through two or three array levels (add_message_grid)
     long_names: bool = False  # a few identifiers of 29..256 characters
     odd_file_names: bool = False  # `sensor.v2.bitproto`, `my-proto.bitproto` for the file nothing imports
     subdirs: bool = False  # files in sub-directories, imports by relative paths (only checks that address files by File.filename)
@@ -534,6 +535,9 @@ def units(draw: Any, feat: Optional[Features] = None) -> Unit:
         share_nested_names(draw, b.unit, feat)
     if feat.flavour_pairs and feat.aliases and draw(st.integers(0, 4)) == 2:
         add_flavour_pair(draw, b.unit)
+    if feat.message_grids and feat.aliases and draw(st.integers(0, 5)) == 4:
+        add_message_grid(draw, b.unit, feat.extensible and feat.ext_arrays, feat.signed_nonstd)
+        _clamp_sizes(b.unit)
     if feat.long_names and draw(st.integers(0, 5)) == 1:
         lengthen_names(draw, b.unit)
     if feat.odd_file_names and draw(st.integers(0, 3)) == 1:
@@ -591,6 +595,37 @@ def add_flavour_pair(draw: Any, unit: Unit, file_index: Optional[int] = None) ->
     set_parents(unit)
     if not (scoping.retext(unit) and scoping.names_unique(unit)):
         raise AssertionError("flavour pair must stay resolvable")
+    return True
+
+
+def add_message_grid(draw: Any, unit: Unit, ext_ok: bool, signed_nonstd: bool = True) -> bool:
+    """A message reached through TWO OR THREE array levels (only expressible through aliases of arrays), with unequal
+    capacities and a field behind it: an index order, a stride or an accessor depth that is wrong shows at once."""
+    from . import scoping
+
+    f = unit.files[draw(st.integers(0, len(unit.files) - 1))]
+    taken = {it.name for it in f.items}
+    names = [n for n in ("Gcell", "Gpair", "Gcube", "Gboard") if n not in taken]
+    if len(names) < 4:
+        return False
+    cell = Message(names[0], ext_ok and draw(st.booleans()))
+    cell.items += [Field("on", TBase("bool"), 1), Field("level", TBase(draw(st.sampled_from(["uint", "int"] if signed_nonstd else ["uint"])), draw(st.sampled_from([3, 5, 9, 12]))), 2)]
+    a, b, c = draw(st.permutations([1, 2, 3]))[:3]
+    pair = Alias(names[1], TArray(TRef(cell.name, cell), a + 1, ext_ok and draw(st.integers(0, 3)) == 0))
+    cube = Alias(names[2], TArray(TRef(pair.name, pair), b + 1))
+    board = Message(names[3], False)
+    board.items += [
+        Field("lead", TBase("uint", draw(st.integers(1, 7))), 1),
+        Field("rows", TArray(TRef(pair.name, pair), c + 1), 2),
+        Field("mid", TBase("uint", 3), 3),
+    ]
+    if draw(st.booleans()):
+        board.items.append(Field("cube", TArray(TRef(cube.name, cube), 2), 4))
+    board.items.append(Field("tail", TBase("uint", 5), 5))
+    f.items += [cell, pair, cube, board]
+    set_parents(unit)
+    if not (scoping.retext(unit) and scoping.names_unique(unit)):
+        raise AssertionError("message grid must stay resolvable")
     return True
 
 
